@@ -425,6 +425,7 @@ func vfC07Session(t *testing.T, res *vfResult, idx int, suite vfSuiteInfo) {
 	// (c) inject on a copy of the situation: after everything else was observed, since it may close the connection
 	vfWireConfidentiality(res, p, cfg, payloads, "session/"+cfg.FP(), map[string]any{"cfg": cfg, "mask": mask, "case": idx})
 	vfC07Exporter(res, p, "session/"+cfg.FP())
+	recheckExporter := vfC07ExporterSnapshots(p)
 	target := p.S
 	if idx%2 == 0 {
 		target = p.C
@@ -471,6 +472,69 @@ func vfC07Session(t *testing.T, res *vfResult, idx int, suite vfSuiteInfo) {
 	}
 	p.Close()
 	synctest.Wait()
+	recheckExporter(res, "session/"+cfg.FP())
+}
+
+// vfC07ExporterSnapshots takes each side's ConnectionState and its exporter output while the session is up and returns
+// a function to call after the connections were closed: a snapshot the application still holds is a value of its own,
+// and what it exports then must still need the secret - not the output of a key that Close has wiped, which anyone
+// could compute from the hello randoms.
+func vfC07ExporterSnapshots(p *vfPair) func(*vfResult, string) {
+	type snap struct {
+		side string
+		st   State
+		out  map[string][]byte
+	}
+	labels := []string{"EXTRACTOR-dtls_srtp", "EXPORTER-verif-a"}
+	snaps := []*snap{}
+	for _, side := range []*vfSide{p.C, p.S} {
+		st, ok := side.Conn.ConnectionState()
+		if !ok {
+			continue
+		}
+		sn := &snap{side: side.Name, st: st, out: map[string][]byte{}}
+		for _, l := range labels {
+			if o, err := sn.st.ExportKeyingMaterial(l, nil, 40); err == nil {
+				sn.out[l] = o
+			}
+		}
+		snaps = append(snaps, sn)
+	}
+	ver := "dtls12"
+	if vfIs13(p.C.Conn) {
+		ver = "dtls13"
+	}
+	cm := vfCommon(p.C.Conn)
+	cr := cm.LocalRandom.MarshalFixed()
+	sr := cm.RemoteRandom.MarshalFixed()
+
+	return func(res *vfResult, scenario string) {
+		for _, sn := range snaps {
+			for _, l := range labels {
+				want, had := sn.out[l]
+				if !had {
+					continue
+				}
+				got, err := sn.st.ExportKeyingMaterial(l, nil, 40)
+				res.Count("exporter_snapshots_rechecked_after_close", 1)
+				if err != nil {
+					res.Count("exporter_snapshot_errors_after_close", 1)
+
+					continue
+				}
+				if !bytes.Equal(got, want) {
+					res.Count("exporter_snapshot_output_changed_after_close", 1)
+				}
+				for name, d := range vfPublicDerivations(l, cr[:], sr[:], 40) {
+					if bytes.Equal(d, got) {
+						res.Violate("C07:exporter-of-held-snapshot-computable-from-cleartext-after-close:"+ver,
+							fmt.Sprintf("%s: ExportKeyingMaterial(%q) on a ConnectionState taken from %s before Close equals %s once the connection is closed, which needs no secret",
+								scenario, l, sn.side, name), nil)
+					}
+				}
+			}
+		}
+	}
 }
 
 // vfC07Schedule: Write racing handshake completion, retransmission, Close and alerts.
